@@ -236,6 +236,12 @@ proof fn lemma_dec_step(s: Seq<u8>, o: int)
          loops=[{'keyword': 'while',
                  'invariant': ['args.input == args0.input', 'bs == args0.input.spec_bytes()', 'valid_utf8(bs)', 'args0.offset <= args.offset <= bs.len()', 'bs.len() <= isize::MAX', 'is_char_boundary(bs, bs.len() as int)'],
                  'decreases': 'bs.len() - args.offset'}])
+    # keyword hash: no index / overflow panic for any word of at most 14 bytes, result bounded
+    u.item(LEX, r'^    const KEYWORD_ASSO_VALUES: \[u8; 256\]', const=True, name='const KEYWORD_ASSO_VALUES',
+           within_re=r'^fn get_word_token_type\(input: &str\)')
+    u.fn(LEX, r'^    const fn hash_keyword\(input: &str\)', name='hash_keyword', within_re=r'^fn get_word_token_type\(input: &str\)',
+         requires=['input.spec_bytes().len() <= 14'],
+         ensures=['r as int <= 14 + 4 * 255'])
     u.fn(LEX, r'^fn block_comment_kind\(nl_before: bool, nl_inside: bool\)', name='block_comment_kind',
          ensures=['nl_inside ==> r == CommentKind::MultilineBlock',
                   '!nl_inside && nl_before ==> r == CommentKind::IndividualBlock',
